@@ -84,12 +84,44 @@ class TaskSem(Semantics):
             raise AnalysisError("try_handle_task signature not recognised")
         self.p_tid, self.p_name, self.p_script, self.p_wd, self.p_limit, self.p_deps = params[1:7]
         self.own_state = f"self.{self.info['states']}[{self.p_tid}]"
+        # the dependency list must stay the caller's list: a rebinding that can drop ids makes "all deps" meaningless
+        self.deps_rebound = None
+        comp_ids = set()
+        for n in walk_no_nested(finfo.node):
+            if isinstance(n, (ast.ListComp, ast.SetComp, ast.DictComp, ast.GeneratorExp)):
+                for g in n.generators:
+                    comp_ids.update(id(x) for x in ast.walk(g.target))
+        for n in walk_no_nested(finfo.node):
+            if isinstance(n, (ast.Assign, ast.AugAssign, ast.AnnAssign)):
+                tgts = n.targets if isinstance(n, ast.Assign) else [n.target]
+                for t in tgts:
+                    for x in ast.walk(t):
+                        if isinstance(x, ast.Name) and x.id == self.p_deps and id(x) not in comp_ids:
+                            if not self._benign_rebind(getattr(n, "value", None)):
+                                self.deps_rebound = n
         # loops over all deps and their loop variables
         self.dep_loops = {}
         for n in walk_no_nested(finfo.node):
             if isinstance(n, (ast.For, ast.AsyncFor)) and isinstance(n.target, ast.Name) and self._is_all_deps(n.iter):
                 self.dep_loops[id(n)] = n.target.id
         self.dep_vars = set(self.dep_loops.values())
+        # subscripts of the task / state tables indexed by a dependency id (KeyError for an id the pool never issued)
+        self.dep_subscripts = set()
+
+        def mark(scope_nodes, var):
+            for sn in scope_nodes:
+                for x in ast.walk(sn):
+                    if isinstance(x, ast.Subscript) and isinstance(x.ctx, ast.Load) and isinstance(x.value, ast.Attribute) \
+                            and dotted(x.value.value) == "self" and any(isinstance(y, ast.Name) and y.id == var for y in ast.walk(x.slice)):
+                        self.dep_subscripts.add(id(x))
+
+        for n in walk_no_nested(finfo.node):
+            if isinstance(n, (ast.For, ast.AsyncFor)) and id(n) in self.dep_loops:
+                mark(n.body, self.dep_loops[id(n)])
+            if isinstance(n, (ast.ListComp, ast.SetComp, ast.GeneratorExp, ast.DictComp)):
+                for g in n.generators:
+                    if isinstance(g.target, ast.Name) and self._is_all_deps(g.iter):
+                        mark([n], g.target.id)
         # boolean flag locals
         self.flags = set()
         assigned = {}
@@ -107,9 +139,65 @@ class TaskSem(Semantics):
             if any(self._creates_process(v) for v in vals):
                 self.proc_vars.add(name)
         self.events = []
+        self.log_sites = {}
+        self.log_list = []
+        self._find_log_sites()
+
+    def _find_log_sites(self):
+        """`with open(<path ending .stdout/.stderr>, <mode>) as h: h.write(<buf>)` sites and the communicate() unpacking."""
+        self.comm_vars = None
+        for n in walk_no_nested(self.finfo.node):
+            if isinstance(n, ast.Assign) and len(n.targets) == 1 and isinstance(n.targets[0], ast.Tuple):
+                if any(isinstance(c.func, ast.Attribute) and c.func.attr == "communicate" for c in _calls(n.value)):
+                    names = [e.id if isinstance(e, ast.Name) else None for e in n.targets[0].elts]
+                    if len(names) == 2:
+                        self.comm_vars = names
+            if isinstance(n, (ast.With, ast.AsyncWith)):
+                for item in n.items:
+                    ce = item.context_expr
+                    if not (isinstance(ce, ast.Call) and isinstance(item.optional_vars, ast.Name)):
+                        continue
+                    canon = self.index.canon(ce.func, self.module)
+                    is_open = canon == "builtins.open" or (isinstance(ce.func, ast.Attribute) and ce.func.attr == "open")
+                    if not is_open:
+                        continue
+                    text = ast.unparse(ce)
+                    suffix = ".stdout" if ".stdout" in text else ".stderr" if ".stderr" in text else None
+                    if suffix is None:
+                        continue
+                    mode = None
+                    margs = ce.args[1:] if canon == "builtins.open" else ce.args
+                    if margs and isinstance(margs[0], ast.Constant):
+                        mode = margs[0].value
+                    for kw in ce.keywords:
+                        if kw.arg == "mode" and isinstance(kw.value, ast.Constant):
+                            mode = kw.value.value
+                    for st in n.body:
+                        for c in _calls(st):
+                            if isinstance(c.func, ast.Attribute) and c.func.attr == "write" and dotted(c.func.value) == item.optional_vars.id:
+                                buf = ast.unparse(c.args[0]) if c.args else None
+                                site = {"suffix": suffix, "buffer": buf, "mode": mode, "open": ce, "write": c, "with": n}
+                                self.log_sites[id(c)] = site
+                                self.log_list.append(site)
 
     # ---- recognisers
+    def _benign_rebind(self, value):
+        """deps = list(deps) / sorted(deps) / deps or [] : keeps every id."""
+        if value is None:
+            return False
+        if isinstance(value, ast.BoolOp) and isinstance(value.op, ast.Or) and isinstance(value.values[0], ast.Name) \
+                and value.values[0].id == self.p_deps and all(isinstance(v, (ast.List, ast.Tuple, ast.Set)) and not v.elts for v in value.values[1:]):
+            return True
+        if isinstance(value, (ast.List, ast.Tuple)) and not value.elts:
+            return True  # `if deps is None: deps = []`
+        if isinstance(value, ast.Call) and len(value.args) == 1 and not value.keywords and isinstance(value.args[0], ast.Name) \
+                and value.args[0].id == self.p_deps:
+            return self.index.canon(value.func, self.module) in ("builtins.list", "builtins.sorted", "builtins.tuple", "builtins.set", "builtins.frozenset")
+        return False
+
     def _is_all_deps(self, it):
+        if self.deps_rebound is not None:
+            return False
         if isinstance(it, ast.Name) and it.id == self.p_deps:
             return True
         if isinstance(it, ast.Call) and len(it.args) == 1 and not it.keywords:
@@ -233,18 +321,15 @@ class TaskSem(Semantics):
                 return frozenset(["PROC"])
             return None
         if target_text == self.own_state or target_text.startswith(f"self.{self.info['states']}["):
-            c = self.const(value_expr, state)
-            if c is not None:
-                return c
-            # inherited from another task's state
             vt = ast.unparse(value_expr)
-            d = self.domain(vt)
-            if d is not None:
-                vals = frozenset(d)
-                if state.facts.get("waited") and vt != self.own_state:
-                    vals = vals & FINAL  # a dependency whose coroutine finished is in a final state (C13.R1, inductively)
-                return vals
-            return None
+            c = self.const(value_expr, state)
+            if c is None:
+                d = self.domain(vt)
+                c = frozenset(d) if d is not None else None
+            if c is not None and vt != self.own_state and vt.startswith(f"self.{self.info['states']}[") and state.facts.get("waited"):
+                # a dependency whose coroutine has finished is in a final state (C13.R1 applied to it, inductively)
+                c = c & FINAL
+            return c
         return self.const(value_expr, state)
 
     # ---- exception edges
@@ -266,21 +351,31 @@ class TaskSem(Semantics):
                 if isinstance(c.func, ast.Attribute) and c.func.attr == "write" and not in_handler:
                     out.append("builtins.OSError")
             # unknown dependency id
-            for n in ast.walk(node):
-                if isinstance(n, ast.Subscript) and isinstance(n.ctx, ast.Load) and isinstance(n.value, ast.Attribute) \
-                        and n.value.attr in (self.info["tasks"], self.info["states"]) and dotted(n.value.value) == "self":
-                    idx_names = {x.id for x in ast.walk(n.slice) if isinstance(x, ast.Name)}
-                    if self.p_tid not in idx_names or idx_names - {self.p_tid}:
-                        if not state.facts.get("deps_known"):
-                            out.append("builtins.KeyError")
-                            break
+            if not state.facts.get("deps_known"):
+                for n in ast.walk(node):
+                    if id(n) in self.dep_subscripts:
+                        out.append("builtins.KeyError")
+                        break
         return list(dict.fromkeys(out))
 
     # ---- effects
     def effect(self, node, state):
         if isinstance(node, tuple):
+            if node[0] == "handler" and "cause" not in state.facts:
+                return state.with_fact("cause", self.h.norm(node[2]))
             return state
         s = state
+        if isinstance(node, ast.Raise) and node.exc is not None and "cause" not in s.facts:
+            e = node.exc.func if isinstance(node.exc, ast.Call) else node.exc
+            s = s.with_fact("cause", self.index.canon(e, self.module) or ast.unparse(e))
+            if self.log_sites:
+                s = s.with_fact("logs_at_raise", tuple(sorted(k[4:] for k, v in s.facts.items() if k.startswith("log:") and v)))
+        # log writes: <handle>.write(<buffer>) inside `with open(<...suffix>) as <handle>`
+        if isinstance(node, ast.AST):
+            for c in _calls(node):
+                site = self.log_sites.get(id(c))
+                if site is not None:
+                    s = s.with_fact("log:" + site["suffix"], site["buffer"] or "?").note(node, f"log {site['suffix']} written from {site['buffer']}")
         # semaphore
         if self._sem_call(node, "acquire") is not None:
             if s.facts.get("acq"):
@@ -349,6 +444,26 @@ class TaskSem(Semantics):
         return False
 
     def test_hook(self, expr, state):
+        # sign tests on the exit status: a finite set of orderings against 0
+        if isinstance(expr, ast.Compare) and len(expr.ops) == 1:
+            l, r, op = expr.left, expr.comparators[0], expr.ops[0]
+            flip = {ast.Gt: ast.Lt, ast.Lt: ast.Gt, ast.GtE: ast.LtE, ast.LtE: ast.GtE}
+            if isinstance(l, ast.Constant) and ast.unparse(r).endswith(".returncode"):
+                l, r = r, l
+                op = flip.get(type(op), type(op))()
+            lt = ast.unparse(l)
+            if lt.endswith(".returncode") and isinstance(r, ast.Constant) and r.value == 0 and isinstance(
+                    op, (ast.Gt, ast.Lt, ast.GtE, ast.LtE)):
+                dom = state.vars.get(lt, frozenset(self.domain(lt)))
+                sign = {"NEG": -1, 0: 0, "POS": 1}
+                f = {ast.Gt: lambda v: v > 0, ast.Lt: lambda v: v < 0, ast.GtE: lambda v: v >= 0, ast.LtE: lambda v: v <= 0}[type(op)]
+                t = frozenset(v for v in dom if f(sign[v]))
+                out = []
+                if t:
+                    out.append((True, state.with_var(lt, t)))
+                if dom - t:
+                    out.append((False, state.with_var(lt, dom - t)))
+                return out
         # `if unfinished:` where unfinished = {tasks of deps that are not done}: nothing left to wait for
         if isinstance(expr, ast.Name):
             for n in walk_no_nested(self.finfo.node):
